@@ -88,6 +88,18 @@ type rec struct {
 	tempDepth map[types.Object]int
 	tempOwner map[types.Object]ast.Stmt
 	hoisted   []string
+	// aliases: locals introduced by a refactoring as names for a pure sub-expression (`k := tla.MakeString("from")`)
+	aliases map[types.Object][]string
+	// strArgs: string parameters of a helper being read in place, bound to the literal the caller passed
+	strArgs map[types.Object]string
+	// consts: package-level variables with an initialiser that nothing assigns (hoisted constants)
+	consts map[types.Object]ast.Expr
+	// body of the section being recognised (to count the uses of a read temporary)
+	body *ast.BlockStmt
+	// decls: function declarations of the generated package (helpers a maintainer extracted are read in place)
+	decls map[*types.Func]*ast.FuncDecl
+	inlining int
+	markers  []string
 }
 
 func (r *rec) bad(n ast.Node, format string, args ...any) {
@@ -128,6 +140,9 @@ func (r *rec) reset(prefix string) {
 	r.tempDepth = map[types.Object]int{}
 	r.tempOwner = map[types.Object]ast.Stmt{}
 	r.hoisted = nil
+	r.aliases = map[types.Object][]string{}
+	r.strArgs = map[types.Object]string{}
+	r.markers = nil
 }
 
 func (r *rec) callee(call *ast.CallExpr) *types.Func {
@@ -161,6 +176,11 @@ func (r *rec) isFunc(call *ast.CallExpr, pkg, name string) bool {
 }
 
 func (r *rec) str(e ast.Expr) (string, bool) {
+	if id, isId := unparen(e).(*ast.Ident); isId {
+		if sv, has := r.strArgs[r.info.ObjectOf(id)]; has {
+			return sv, true
+		}
+	}
 	tv, ok := r.info.Types[e]
 	if !ok || tv.Value == nil || tv.Value.Kind() != constant.String {
 		return "", false
@@ -203,10 +223,229 @@ func (r *rec) asBoolRecv(e ast.Expr) (ast.Expr, bool) {
 	return unparen(call.Fun).(*ast.SelectorExpr).X, true
 }
 
+// enterHelper binds the parameters of a package-local helper that the specification does not define (a function a
+// maintainer extracted from the generated sections) to the call's arguments - handles to handles, values to their
+// rendering - and returns its body; restore undoes the bindings.
+func (r *rec) enterHelper(call *ast.CallExpr) (body []ast.Stmt, restore func(), ok bool) {
+	f := r.callee(call)
+	if f == nil || r.inlining >= 4 {
+		return nil, nil, false
+	}
+	d := r.decls[f]
+	if d == nil || d.Body == nil || d.Recv != nil || r.canon.Defs[f.Name()] || d.Type.TypeParams != nil {
+		return nil, nil, false
+	}
+	var params []types.Object
+	for _, fl := range d.Type.Params.List {
+		if _, variadic := fl.Type.(*ast.Ellipsis); variadic {
+			return nil, nil, false
+		}
+		if len(fl.Names) == 0 {
+			params = append(params, nil)
+		}
+		for _, nm := range fl.Names {
+			params = append(params, r.info.Defs[nm])
+		}
+	}
+	if len(params) != len(call.Args) {
+		return nil, nil, false
+	}
+	type saved struct {
+		o       types.Object
+		alias   []string
+		hasA    bool
+		handle  string
+		hasH    bool
+		ref     string
+		hasR    bool
+	}
+	var undo []saved
+	for k, p := range params {
+		if p == nil {
+			continue
+		}
+		a := call.Args[k]
+		sv := saved{o: p}
+		sv.alias, sv.hasA = r.aliases[p]
+		sv.handle, sv.hasH = r.handles[p]
+		sv.ref, sv.hasR = r.refArgs[p]
+		undo = append(undo, sv)
+		tn := ""
+		if n, isNamed := p.Type().(*types.Named); isNamed {
+			tn = n.Obj().Name()
+		}
+		switch {
+		case tn == "ArchetypeInterface":
+			// the interface itself
+		case tn == "ArchetypeResourceHandle":
+			if h, has := r.handles[r.obj(a)]; has {
+				r.handles[p] = h
+			} else if h, has := r.refArgs[r.obj(a)]; has {
+				r.refArgs[p] = h
+			} else {
+				return nil, nil, false
+			}
+		default:
+			if b, isBasic := p.Type().Underlying().(*types.Basic); isBasic && b.Kind() == types.String {
+				if sv, isStr := r.str(a); isStr {
+					r.strArgs[p] = sv
+					continue
+				}
+				return nil, nil, false
+			}
+			if b, isBasic := p.Type().Underlying().(*types.Basic); isBasic && b.Kind() == types.Bool {
+				r.aliases[p] = r.condToks(unparen(a))
+			} else {
+				r.aliases[p] = r.expr(a)
+			}
+		}
+	}
+	oldBody := r.body
+	r.body = d.Body
+	r.inlining++
+	return d.Body.List, func() {
+		r.inlining--
+		r.body = oldBody
+		// the helper's own read temporaries are judged per call: the next call reads again
+		for o := range r.temps {
+			if o.Pos() < d.Body.Pos() || o.Pos() >= d.Body.End() {
+				continue
+			}
+			switch n := r.uses[o]; {
+			case n > 1:
+				r.markers = append(r.markers, "REUSED-READ", strings.Join(r.temps[o], " "))
+			case n == 0:
+				r.markers = append(r.markers, "EXTRA-READ", strings.Join(r.temps[o], " "))
+			}
+			delete(r.temps, o)
+			delete(r.uses, o)
+			delete(r.tempDepth, o)
+			delete(r.tempOwner, o)
+		}
+		for _, sv := range undo {
+			delete(r.aliases, sv.o)
+			delete(r.handles, sv.o)
+			delete(r.refArgs, sv.o)
+			delete(r.strArgs, sv.o)
+			if sv.hasA {
+				r.aliases[sv.o] = sv.alias
+			}
+			if sv.hasH {
+				r.handles[sv.o] = sv.handle
+			}
+			if sv.hasR {
+				r.refArgs[sv.o] = sv.ref
+			}
+		}
+	}, true
+}
+
+// condToks renders the condition of an if / guard: `<expr>.AsBool()`, or a Go combination (&&, ||, !) of such tests.
+func (r *rec) condToks(e ast.Expr) []string {
+	if x, ok := r.asBoolRecv(e); ok {
+		return r.expr(x)
+	}
+	return r.boolExpr(e)
+}
+
+// isAliasDef: `name := <expression that is not an ArchetypeInterface call>`.
+func (r *rec) isAliasDef(st ast.Stmt) bool {
+	as, ok := st.(*ast.AssignStmt)
+	if !ok || as.Tok != token.DEFINE || len(as.Lhs) != 1 || len(as.Rhs) != 1 {
+		return false
+	}
+	if _, isId := as.Lhs[0].(*ast.Ident); !isId {
+		return false
+	}
+	call, isCall := unparen(as.Rhs[0]).(*ast.CallExpr)
+	return !isCall || !r.isIfaceCall(call)
+}
+
+// isIfaceCall: a call of an ArchetypeInterface method (Read, Write, Require..., Goto, ...).
+func (r *rec) isIfaceCall(call *ast.CallExpr) bool {
+	f := r.callee(call)
+	return f != nil && f.Pkg() != nil && f.Pkg().Path() == pkgDistsys && recvTypeName(f) == "ArchetypeInterface" && f.Name() != "Self" && f.Name() != "GetConstant"
+}
+
+// countUses: how often the section mentions obj apart from its declaration and the statement that assigns it from Read.
+func (r *rec) countUses(obj types.Object) int {
+	if r.body == nil || obj == nil {
+		return 0
+	}
+	n := 0
+	ast.Inspect(r.body, func(m ast.Node) bool {
+		switch x := m.(type) {
+		case *ast.AssignStmt:
+			// the left-hand sides are not uses
+			for _, rhs := range x.Rhs {
+				ast.Inspect(rhs, func(k ast.Node) bool {
+					if id, ok := k.(*ast.Ident); ok && r.info.Uses[id] == obj {
+						n++
+					}
+					return true
+				})
+			}
+			// `_ = x` keeps a variable alive, it does not use the value
+			if isBlankAssign(x) {
+				for _, rhs := range x.Rhs {
+					if id, ok := unparen(rhs).(*ast.Ident); ok && r.info.Uses[id] == obj {
+						n--
+					}
+				}
+			}
+			return false
+		case *ast.Ident:
+			if r.info.Uses[x] == obj {
+				n++
+			}
+		}
+		return true
+	})
+	return n
+}
+
+// countAssignments: assignments to obj other than its defining `:=`.
+func (r *rec) countAssignments(obj types.Object) int {
+	if r.body == nil || obj == nil {
+		return 1
+	}
+	n := 0
+	ast.Inspect(r.body, func(m ast.Node) bool {
+		switch x := m.(type) {
+		case *ast.AssignStmt:
+			for _, l := range x.Lhs {
+				if id, ok := unparen(l).(*ast.Ident); ok && r.info.Uses[id] == obj {
+					n++
+				}
+			}
+		case *ast.IncDecStmt:
+			if id, ok := unparen(x.X).(*ast.Ident); ok && r.info.Uses[id] == obj {
+				n++
+			}
+		case *ast.UnaryExpr:
+			if id, ok := unparen(x.X).(*ast.Ident); ok && x.Op == token.AND && r.info.Uses[id] == obj {
+				n++
+			}
+		}
+		return true
+	})
+	return n
+}
+
 func (r *rec) boolExpr(e ast.Expr) []string {
 	e = unparen(e)
 	if x, ok := r.asBoolRecv(e); ok {
 		return r.expr(x)
+	}
+	if id, ok := e.(*ast.Ident); ok {
+		if t, has := r.aliases[r.info.ObjectOf(id)]; has {
+			return t
+		}
+	}
+	if u, ok := e.(*ast.UnaryExpr); ok && u.Op == token.NOT {
+		if rep, has := r.symRepr["LogicalNotSymbol"]; has {
+			return group([]string{rep}, r.boolExpr(u.X))
+		}
 	}
 	if be, ok := e.(*ast.BinaryExpr); ok {
 		switch be.Op {
@@ -387,10 +626,16 @@ func (r *rec) expr(e ast.Expr) []string {
 		o := r.info.ObjectOf(x)
 		if t, ok := r.temps[o]; ok {
 			r.uses[o]++
-			if d, known := r.tempDepth[o]; known && (r.depth != d || (r.cur[d] != r.tempOwner[o] && !isReadTempDecl(r.cur[d]))) {
+			if d, known := r.tempDepth[o]; known && (r.depth != d || (r.cur[d] != r.tempOwner[o] && !isReadTempDecl(r.cur[d]) && !r.isAliasDef(r.cur[d]))) {
 				r.hoisted = append(r.hoisted, strings.Join(t, " "))
 			}
 			return t
+		}
+		if t, ok := r.aliases[o]; ok {
+			return t
+		}
+		if init, ok := r.consts[o]; ok {
+			return r.expr(init)
 		}
 		if r.anchors[o] {
 			return []string{"@"}
@@ -496,7 +741,19 @@ func (r *rec) call(x *ast.CallExpr) []string {
 				if !ok || len(cl.Elts) != 2 {
 					r.bad(el, "record field is not {key, value}")
 				}
-				kc, ok := unparen(cl.Elts[0]).(*ast.CallExpr)
+				keyExpr := unparen(cl.Elts[0])
+				for depth := 0; depth < 4; depth++ {
+					id, isId := keyExpr.(*ast.Ident)
+					if !isId {
+						break
+					}
+					if init, has := r.consts[r.info.ObjectOf(id)]; has {
+						keyExpr = unparen(init)
+						continue
+					}
+					break
+				}
+				kc, ok := keyExpr.(*ast.CallExpr)
 				if !ok || !r.isFunc(kc, pkgTLA, "MakeString") {
 					r.bad(el, "record key is not MakeString")
 				}
@@ -612,6 +869,17 @@ func (r *rec) call(x *ast.CallExpr) []string {
 			return callForm(op, r.exprs(x.Args))
 		}
 	default:
+		// a helper of the generated package that is not an operator of the specification and only returns an expression:
+		// read in place
+		if d := r.decls[f]; d != nil && !r.canon.Defs[f.Name()] && d.Body != nil && len(d.Body.List) == 1 && r.inlining < 4 {
+			if rs, isRet := d.Body.List[0].(*ast.ReturnStmt); isRet && len(rs.Results) == 1 {
+				if _, restore, ok := r.enterHelper(x); ok {
+					t := r.expr(rs.Results[0])
+					restore()
+					return t
+				}
+			}
+		}
 		// operator defined in the generated package: Op(iface, args...)
 		if f.Pkg() != nil && recv == "" && len(x.Args) >= 1 {
 			if n, ok := r.info.TypeOf(x.Args[0]).(*types.Named); ok && n.Obj().Name() == "ArchetypeInterface" {
@@ -647,8 +915,49 @@ func (r *rec) setComprehension(x *ast.CallExpr) []string {
 }
 
 // iife handles func() tla.Value { ... }() : IF, CASE and LET.
-func (r *rec) iife(lit *ast.FuncLit) []string {
-	list := lit.Body.List
+func (r *rec) iife(lit *ast.FuncLit) []string { return r.iifeList(lit.Body.List, lit) }
+
+// iifeList renders the statement list of a generated closure (IF / CASE / LET), also in the forms a maintainer gives it when
+// unwrapping the closure: `if c { return a }; return b` for IF, `x := e` for a LET definition.
+func (r *rec) iifeList(list []ast.Stmt, lit ast.Node) []string {
+	// drop `_ = x` lines
+	var kept []ast.Stmt
+	for _, s := range list {
+		if !isBlankAssign(s) {
+			kept = append(kept, s)
+		}
+	}
+	if len(kept) >= 2 {
+		// `if c { <returns a> }` followed by more statements: IF c THEN a ELSE <the rest as an expression>
+		if is, ok := kept[0].(*ast.IfStmt); ok && is.Else == nil && is.Init == nil && len(is.Body.List) > 0 {
+			if _, returns := is.Body.List[len(is.Body.List)-1].(*ast.ReturnStmt); returns {
+				cond := unparen(is.Cond)
+				neg := false
+				for {
+					u, isU := cond.(*ast.UnaryExpr)
+					if !isU || u.Op != token.NOT {
+						break
+					}
+					cond, neg = unparen(u.X), !neg
+				}
+				c := r.condToks(cond)
+				a, b := r.iifeList(is.Body.List, is), r.iifeList(kept[1:], lit)
+				if neg {
+					a, b = b, a
+				}
+				out := append([]string{"IF"}, c...)
+				out = append(out, "THEN")
+				out = append(out, a...)
+				out = append(out, "ELSE")
+				return append(out, b...)
+			}
+		}
+	}
+	if len(kept) == 1 {
+		if rs, ok := kept[0].(*ast.ReturnStmt); ok && len(rs.Results) == 1 {
+			return r.expr(rs.Results[0])
+		}
+	}
 	if len(list) == 1 {
 		switch s := list[0].(type) {
 		case *ast.IfStmt:
@@ -731,6 +1040,15 @@ func (r *rec) iife(lit *ast.FuncLit) []string {
 				continue
 			}
 			fl, ok := unparen(s.Rhs[0]).(*ast.FuncLit)
+			if !ok && s.Tok == token.DEFINE && len(s.Lhs) == 1 && len(s.Rhs) == 1 {
+				// `d := e`: a LET definition without the `var d tla.Value = e; _ = d` ceremony
+				if id, isId := s.Lhs[0].(*ast.Ident); isId {
+					out = append(out, r.canon.Ident(id.Name), "==")
+					out = append(out, r.expr(s.Rhs[0])...)
+					i++
+					continue
+				}
+			}
 			if !ok || s.Tok != token.DEFINE || len(fl.Body.List) != 1 {
 				r.bad(s, "LET operator definition of unexpected shape")
 			}
@@ -752,6 +1070,9 @@ func (r *rec) iife(lit *ast.FuncLit) []string {
 			r.bad(s, "unexpected statement in LET closure")
 		}
 		i++
+	}
+	if len(list) == 0 {
+		r.bad(lit, "empty closure")
 	}
 	rs, ok := list[len(list)-1].(*ast.ReturnStmt)
 	if !ok || len(rs.Results) != 1 {
@@ -868,11 +1189,27 @@ func (r *rec) stmts(list []ast.Stmt) []string {
 				}
 				toks := []string{r.handleName(call.Args[0], call)}
 				toks = append(toks, r.indices(call.Args[1])...)
+				if r.countUses(obj) > 1 {
+					// a value that is read once and used several times is a `with` binding whose temporary was inlined
+					out = append(out, "WITH", r.canon.Ident(name.Name), "=")
+					out = append(out, toks...)
+					out = append(out, ";")
+					i += 2
+					continue
+				}
 				r.temps[obj] = toks
 				// the statement this read was lifted out of: the next statement of this list that is not itself a lifted read
 				j := i + 3
-				for j+2 < len(list) && isReadTempDecl(list[j]) {
-					j += 3
+				for j < len(list) {
+					if j+2 < len(list) && isReadTempDecl(list[j]) {
+						j += 3
+						continue
+					}
+					if r.isAliasDef(list[j]) || isBlankAssign(list[j]) {
+						j++
+						continue
+					}
+					break
 				}
 				r.tempDepth[obj] = r.depth
 				if j < len(list) {
@@ -934,6 +1271,17 @@ func (r *rec) stmts(list []ast.Stmt) []string {
 				r.bad(x, "unexpected assignment")
 			}
 			call, ok := unparen(x.Rhs[0]).(*ast.CallExpr)
+			if x.Tok == token.DEFINE && len(x.Lhs) == 1 && (!ok || !r.isIfaceCall(call)) {
+				// `name := <pure expression>`: a local name for a sub-expression
+				if id, isId := x.Lhs[0].(*ast.Ident); isId && r.countAssignments(r.info.Defs[id]) == 0 {
+					if b, isBasic := r.info.TypeOf(x.Rhs[0]).Underlying().(*types.Basic); isBasic && b.Kind() == types.Bool {
+						r.aliases[r.info.Defs[id]] = r.condToks(unparen(x.Rhs[0]))
+					} else {
+						r.aliases[r.info.Defs[id]] = r.expr(x.Rhs[0])
+					}
+					continue
+				}
+			}
 			if !ok {
 				r.bad(x, "unexpected assignment")
 			}
@@ -950,6 +1298,41 @@ func (r *rec) stmts(list []ast.Stmt) []string {
 			case r.isMethod(call, pkgDistsys, "ArchetypeInterface", "ReadArchetypeResourceLocal"):
 				name, _ := r.str(call.Args[0])
 				r.refArgs[r.obj(x.Lhs[0])] = r.local(name, x)
+			case r.isMethod(call, pkgDistsys, "ArchetypeInterface", "Read") && len(x.Lhs) == 2:
+				// `v, err := iface.Read(h, idx)` + error check: the lifted read without its separate declaration
+				if i+1 >= len(list) || !isErrCheck(list[i+1]) {
+					r.bad(x, "Read without the error check")
+				}
+				obj := r.obj(x.Lhs[0])
+				if obj == nil {
+					r.bad(x, "Read into something that is not a variable")
+				}
+				toks := []string{r.handleName(call.Args[0], call)}
+				toks = append(toks, r.indices(call.Args[1])...)
+				if r.countUses(obj) > 1 {
+					out = append(out, "WITH", r.canon.Ident(obj.Name()), "=")
+					out = append(out, toks...)
+					out = append(out, ";")
+				} else {
+					r.temps[obj] = toks
+					j := i + 2
+					for j < len(list) {
+						if j+2 < len(list) && isReadTempDecl(list[j]) {
+							j += 3
+							continue
+						}
+						if r.isAliasDef(list[j]) || isBlankAssign(list[j]) {
+							j++
+							continue
+						}
+						break
+					}
+					r.tempDepth[obj] = r.depth
+					if j < len(list) {
+						r.tempOwner[obj] = list[j]
+					}
+				}
+				i++
 			case r.isMethod(call, pkgDistsys, "ArchetypeInterface", "Write"):
 				if i+1 >= len(list) || !isErrCheck(list[i+1]) {
 					r.bad(x, "Write without the error check")
@@ -961,50 +1344,110 @@ func (r *rec) stmts(list []ast.Stmt) []string {
 				out = append(out, ";")
 				i++
 			default:
+				if body, restore, ok := r.enterHelper(call); ok {
+					out = append(out, r.stmts(body)...)
+					restore()
+					if i+1 < len(list) && isErrCheck(list[i+1]) {
+						i++
+					}
+					continue
+				}
 				r.bad(x, "unexpected assignment from %s", types.ExprString(call.Fun))
 			}
 		case *ast.IfStmt:
+			if x.Init != nil {
+				r.bad(x, "if with an init clause")
+			}
 			cond := unparen(x.Cond)
-			if u, ok := cond.(*ast.UnaryExpr); ok && u.Op == token.NOT {
-				c, ok := r.asBoolRecv(u.X)
-				if !ok || x.Else != nil {
-					r.bad(x, "unexpected negated condition")
+			neg := false
+			for {
+				u, ok := cond.(*ast.UnaryExpr)
+				if !ok || u.Op != token.NOT {
+					break
 				}
-				switch {
-				case r.returnsAbort(x.Body):
-					out = append(out, "AWAIT")
-				case r.returnsAssertion(x.Body):
-					out = append(out, "ASSERT")
-				default:
-					// a guard that leaves the section some other way (a goto, a plain return): no MPCal statement compiles to
-					// this, so it is rendered as a foreign statement and mismatches whatever the spec has here
-					out = append(out, "UNLESS")
-					out = append(out, r.expr(c)...)
-					out = append(out, "{")
-					out = append(out, r.stmts(x.Body.List)...)
-					out = append(out, "}")
-					continue
+				cond = unparen(u.X)
+				neg = !neg
+			}
+			c := r.condToks(cond)
+			if x.Else == nil && (r.returnsAbort(x.Body) || r.returnsAssertion(x.Body)) {
+				kw := "AWAIT"
+				if r.returnsAssertion(x.Body) {
+					kw = "ASSERT"
 				}
-				out = append(out, r.expr(c)...)
+				if !neg {
+					// `if c { abort }`: the guard is the negation of c
+					if rep, has := r.symRepr["LogicalNotSymbol"]; has {
+						c = group([]string{rep}, c)
+					}
+				}
+				out = append(out, kw)
+				out = append(out, c...)
 				out = append(out, ";")
 				continue
 			}
-			c, ok := r.asBoolRecv(cond)
-			if !ok {
-				r.bad(x, "unexpected if condition %s", types.ExprString(cond))
+			thenToks := r.stmts(x.Body.List)
+			var elseToks []string
+			switch eb := x.Else.(type) {
+			case nil:
+			case *ast.BlockStmt:
+				elseToks = r.stmts(eb.List)
+			case *ast.IfStmt:
+				elseToks = r.stmts([]ast.Stmt{eb})
+			default:
+				r.bad(x, "unexpected else")
 			}
-			eb, ok := x.Else.(*ast.BlockStmt)
-			if !ok {
-				r.bad(x, "if without an else block")
+			if neg {
+				thenToks, elseToks = elseToks, thenToks
 			}
 			out = append(out, "IF")
-			out = append(out, r.expr(c)...)
-			out = append(out, "{")
-			out = append(out, r.stmts(x.Body.List)...)
-			out = append(out, "}", "ELSE", "{")
-			out = append(out, r.stmts(eb.List)...)
-			out = append(out, "}")
+			out = append(out, c...)
+			out = append(out, BlkOpen)
+			out = append(out, thenToks...)
+			out = append(out, BlkClose, "ELSE", BlkOpen)
+			out = append(out, elseToks...)
+			out = append(out, BlkClose)
 		case *ast.SwitchStmt:
+			if x.Tag == nil && x.Init == nil {
+				// a condition switch: the if / else-if chain in another spelling
+				var build func(k int) []string
+				build = func(k int) []string {
+					if k >= len(x.Body.List) {
+						return nil
+					}
+					cc := x.Body.List[k].(*ast.CaseClause)
+					if cc.List == nil {
+						if k != len(x.Body.List)-1 {
+							r.bad(cc, "default clause is not last")
+						}
+						return r.stmts(cc.Body)
+					}
+					if len(cc.List) != 1 {
+						r.bad(cc, "case with several conditions")
+					}
+					cond := unparen(cc.List[0])
+					neg := false
+					for {
+						u, isU := cond.(*ast.UnaryExpr)
+						if !isU || u.Op != token.NOT {
+							break
+						}
+						cond, neg = unparen(u.X), !neg
+					}
+					c := r.condToks(cond)
+					a, b := r.stmts(cc.Body), build(k+1)
+					if neg {
+						a, b = b, a
+					}
+					o := append([]string{"IF"}, c...)
+					o = append(o, BlkOpen)
+					o = append(o, a...)
+					o = append(o, BlkClose, "ELSE", BlkOpen)
+					o = append(o, b...)
+					return append(o, BlkClose)
+				}
+				out = append(out, build(0)...)
+				continue
+			}
 			call, ok := unparen(x.Tag).(*ast.CallExpr)
 			if !ok || !r.isMethod(call, pkgDistsys, "ArchetypeInterface", "NextFairnessCounter") {
 				r.bad(x, "switch that is not an either")
@@ -1016,13 +1459,13 @@ func (r *rec) stmts(list []ast.Stmt) []string {
 					continue // default: panic
 				}
 				if n == 0 {
-					out = append(out, "EITHER", "{")
+					out = append(out, "EITHER", BlkOpen)
 				} else {
-					out = append(out, "OR", "{")
+					out = append(out, "OR", BlkOpen)
 				}
 				n++
 				out = append(out, r.stmts(cc.Body)...)
-				out = append(out, "}")
+				out = append(out, BlkClose)
 			}
 		case *ast.ExprStmt:
 			call, ok := unparen(x.X).(*ast.CallExpr)
@@ -1094,9 +1537,20 @@ func (r *rec) stmts(list []ast.Stmt) []string {
 					out = append(out, "GOTO", r.local(ret, call), ";")
 				}
 			default:
+				if body, restore, ok := r.enterHelper(call); ok {
+					out = append(out, r.stmts(body)...)
+					restore()
+					continue
+				}
 				r.bad(x, "unexpected return of %s", types.ExprString(call.Fun))
 			}
 		case *ast.EmptyStmt:
+		case *ast.BlockStmt:
+			// a bare block (left by the inlining of a helper): its statements, in place
+			r.depth--
+			out = append(out, r.stmts(x.List)...)
+			r.depth++
+			r.cur[r.depth] = s
 		default:
 			r.bad(s, "unsupported statement %T", s)
 		}
@@ -1150,6 +1604,7 @@ func (r *rec) section(name string, lit *ast.FuncLit) (sec *GoSection) {
 			panic(rc)
 		}
 	}()
+	r.body = lit.Body
 	sec.Stream = r.stmts(lit.Body.List)
 	sec.Targets = r.targets
 	for o, n := range r.uses {
@@ -1162,6 +1617,7 @@ func (r *rec) section(name string, lit *ast.FuncLit) (sec *GoSection) {
 			sec.Stream = append(sec.Stream, "EXTRA-READ", strings.Join(r.temps[o], " "))
 		}
 	}
+	sec.Stream = append(sec.Stream, r.markers...)
 	sort.Strings(r.hoisted)
 	for _, h := range r.hoisted {
 		// a resource read performed earlier than the statement that needs it (e.g. above the branch that uses it)
